@@ -41,6 +41,7 @@ MODULES = {
 
 MAX_BUCKETS = 4          # root-cause buckets collected per sub-check and shard
 SHRINK_BUDGET = {"quick": 250, "thorough": 1500}
+SHRINK_SECONDS = {"quick": 20, "thorough": 120}
 SAMPLES_PER_SUB = 2
 
 
@@ -115,6 +116,13 @@ def run_job(args):
     warnings.simplefilter("ignore")
     from hypothesis import HealthCheck, Phase, given, seed, settings
     import hypothesis.errors as herr
+
+    try:  # bound the shrink phase (Hypothesis' own cap is 300 s per failure); internal constant of the pinned 6.168
+        import hypothesis.internal.conjecture.engine as _eng
+
+        _eng.MAX_SHRINKING_SECONDS = SHRINK_SECONDS[tier]
+    except Exception:
+        pass
 
     from vlib.core import HarnessError, Violation, canon, case_hash
 
